@@ -388,7 +388,7 @@ func (p *Scripted) handle(s network.Stream) {
 		s.Close()
 	case "silent":
 		// accepted the request and says nothing for a long while (a stream that honours deadlines lets the client give up)
-		time.Sleep(1500 * time.Millisecond)
+		time.Sleep(6 * time.Second)
 		s.Reset() //nolint:errcheck
 	case "hang":
 		// keep the stream open until the other side gives up
